@@ -20,8 +20,11 @@ def check(run, only=None):
         run.add_bounded(out)
     if only in (None, "P"):
         from vlib.companions import parserfuncs as pf
-        pcommon.add_proof(run, "C07", ["parglare.parser.Parser._lexical_disambiguation", "parglare.parser.Parser._next_token"],
-                          [pf.run_misc, pf.run_recovery],
+        pcommon.add_proof(run, "C07", ["parglare.parser.Parser._lexical_disambiguation", "parglare.parser.Parser._next_token",
+                                       "parglare.parser.Parser._token_recognition"],
+                          [pf.run_misc, pf.run_recovery, pf.run_scanner],
                           "_lexical_disambiguation: identity on <= 1 candidates, survivors are candidates of maximal match "
                           "length, prefer excludes non-preferred; _next_token: none -> None, one -> it, several -> "
-                          "DisambiguationError")
+                          "DisambiguationError; _token_recognition: every token is a match of a terminal expected in the state "
+                          "at the head's position carrying the recogniser's result, and there is no token iff no expected "
+                          "terminal matches (whatever order, priority exit and finish flags do)")
